@@ -82,11 +82,20 @@ def gen_asi_tokens():
     if len(names) < 40 or "Semicolon" not in names or "Else" not in names or "Eof" not in names:
         raise extract.ExtractError("TokenKind enum has an unexpected shape")
     body = extract.strip_comments(fn_body(tok, "can_end_statement"))
-    mm = re.search(r"matches!\s*\(\s*self\s*,(.*)\)", body, flags=re.S)
-    if not mm:
-        raise extract.ExtractError("can_end_statement is no longer a single matches!(self, ...)")
-    enders = re.findall(r"Self::([A-Za-z0-9]+)", mm.group(1))
-    rest = re.sub(r"Self::[A-Za-z0-9]+(\s*\(\s*_\s*\))?", "", mm.group(1))
+    mm = re.search(r"matches!\s*\(\s*\*?self\s*,(.*)\)", body, flags=re.S)
+    if mm:
+        pats = mm.group(1)
+    else:
+        # `match self { A | B(_) => true, _ => false }`
+        m3 = re.search(r"match\s+\*?self\s*\{(.*)\}", body, flags=re.S)
+        if not m3:
+            raise extract.ExtractError("can_end_statement is neither matches!(self, ...) nor match self { ... }")
+        arms = re.findall(r"((?:(?:Self|TokenKind)::\w+(?:\s*\(\s*_\s*\))?\s*\|?\s*)+)=>\s*(true|false)", m3.group(1))
+        if not arms or not re.search(r"_\s*=>\s*false", m3.group(1)):
+            raise extract.ExtractError("can_end_statement: cannot read the arms of the match")
+        pats = " | ".join(a for a, v in arms if v == "true")
+    enders = re.findall(r"(?:Self|TokenKind)::([A-Za-z0-9]+)", pats)
+    rest = re.sub(r"(?:Self|TokenKind)::[A-Za-z0-9]+(\s*\(\s*_\s*\))?", "", pats)
     if rest.replace("|", "").strip():
         raise extract.ExtractError(f"can_end_statement has patterns this translator does not understand: {rest.strip()!r}")
     for e in enders:
@@ -104,9 +113,9 @@ def gen_asi_tokens():
         inc = "self.nesting_depth+=1" in flat
         dec = "self.nesting_depth=self.nesting_depth.saturating_sub(1)" in flat
         # `{`: save the ( [ depth of the enclosing code and start the block at depth 0
-        save = "self.brace_stack.push(self.nesting_depth);self.nesting_depth=0;" in flat
+        save = "self.brace_stack.push(self.nesting_depth)" in flat and "self.nesting_depth=0" in flat
         # `}`: restore it (nothing happens when there is no open `{`)
-        restore = "ifletSome(outer)=self.brace_stack.pop(){self.nesting_depth=outer;}" in flat
+        restore = "self.brace_stack.pop()" in flat and re.search(r"self\.nesting_depth=\w+", flat) is not None and not save
         if ("nesting_depth" in arm or "brace_stack" in arm) and [inc, dec, save, restore].count(True) != 1:
             raise extract.ExtractError(f"arm for {ch!r} changes nesting_depth / brace_stack in a way this translator does not understand")
         if inc:
